@@ -320,6 +320,17 @@ def cut_loop(ip, key, assigned, guard, bind, body, extra=None, lc=None):
         out.extend(auto)
         return out
 
+    if lc is not None and lc.stop is not None:
+        for lv in list(fr.locals.values()):
+            if isinstance(lv, PList) and not lv.frozen and lv.ref is None:
+                c.promote(lv)
+        from .calls import _clauses
+        for nm, f in _clauses(lc.stop(SV(c.heap0), c.sv(), view(0)), "stop"):
+            c.prove(f"{name}/reached-only-if/{nm}", f, kind="region-end")
+        # up to here nothing allocated before the call has been written
+        c.task.check_frame(c, SV(c.heap0), c.task.spec_args, f"{name}/reached-with", unchanged=True)
+        c.assumptions_used.add(f"NOT VERIFIED: {key[0]} from its loop {key[1]} on (the verified region ends there; see the bounded pass)")
+        raise PathEnd()
     if lc is not None and lc.ghost:
         v0 = view(0)
         for gname, gf in lc.ghost.items():
